@@ -592,7 +592,14 @@ class CastUnmarshaller(AbstractUnmarshaller[T]):
         if isinstance(decoded, self.t):
             return decoded
         # Cast the decoded value to the type.
-        return self.caster(decoded)
+        try:
+            return self.caster(decoded)
+        except (ValueError, TypeError):
+            if decoded is val:
+                raise
+            # The text itself may be the value (e.g., an enum value of "1").
+            text = serdes.decode(val)
+            return text if isinstance(text, self.t) else self.caster(text)
 
 
 PathUnmarshaller = CastUnmarshaller[pathlib.Path]
